@@ -708,6 +708,9 @@ func (x *Exec) loop(s ast.Stmt, st *State, cx *Ctx, k func(*State)) {
 		}
 		envAt := func(st *State, hid map[string]Val) *SEnv {
 			b := map[string]Val{}
+			for k, v := range st.loopBinds {
+				b[k] = v
+			}
 			for k, v := range hid {
 				b[k] = v
 			}
@@ -928,6 +931,20 @@ func (x *Exec) loop(s ast.Stmt, st *State, cx *Ctx, k func(*State)) {
 				trail: st.trail[:len(st.trail):len(st.trail)], kind: lkind})
 			checkInvs(st, hid2, "inv-preserved")
 			x.paths++
+		}
+		// the enclosing loop's index and range value stay visible to the invariants of nested loops
+		{
+			lb := map[string]Val{}
+			for k2, v := range iter.loopBinds {
+				lb[k2] = v
+			}
+			if v, ok := envAt(iter, hid).binds["$i"]; ok {
+				lb[fmt.Sprintf("$i%d", ord)] = v
+			}
+			if kind == "slice" || kind == "int" || kind == "map" {
+				lb[fmt.Sprintf("$range%d", ord)] = rangeVal
+			}
+			iter.loopBinds = lb
 		}
 		inner := &Ctx{onReturn: cx.onReturn, onBreak: k, onContinue: back}
 		iter.note(fmt.Sprintf("loop[%d]:iteration", ord))
